@@ -44,6 +44,7 @@ func propC15(r *Run) {
 			}
 		}
 		afterRename := false
+		faultKind, faultReal := "", ""
 		judge := func(what string, f *simfs.FS, err error) {
 			w.use(f)
 			post := f.Snapshot(w.base())
@@ -84,7 +85,17 @@ func propC15(r *Run) {
 				// Known finding (see known_findings.json); the state must then be exactly the
 				// success state, anything else is reported under the general signatures below.
 				outcomes["failure-after-rename"]++
-				r.Fail("fault/"+op.Kind+"/failure-after-rename", "%s: %s reported %q but the change is installed: %v", what, op, err, changed)
+				// the finding is specific to the open / fsync of the BASE DIRECTORY that follows the
+				// rename; a failure anywhere else after the rename gets its own signature
+				site := "other-" + faultKind
+				if faultReal == w.base() && (faultKind == "open" || faultKind == "sync") {
+					site = "dir-" + faultKind
+				}
+				if site == "dir-open" || site == "dir-sync" {
+					r.Fail("fault/"+op.Kind+"/failure-after-rename", "%s: %s reported %q but the change is installed: %v", what, op, err, changed)
+				} else {
+					r.Fail("fault/"+op.Kind+"/failure-after-rename/"+site, "%s (on %s): %s reported %q but the change is installed: %v", what, faultReal, op, err, changed)
+				}
 				err = nil
 			}
 			if err != nil {
@@ -162,6 +173,7 @@ func propC15(r *Run) {
 				f.Plan = func(seq int, kind, real string) *simfs.Fault {
 					if seq == k {
 						fired = true
+						faultKind, faultReal = kind, real
 						return &simfs.Fault{Errno: in.e, Short: in.short}
 					}
 					return nil
@@ -184,7 +196,30 @@ func propC15(r *Run) {
 				evals++
 			}
 		}
-		// read-only clause
+		// read-only clause, first with the store being opened inside the measured window (what
+		// every CLI command, daemon start and reload does) on a directory that has no work area
+		{
+			f := sc.pre.Clone()
+			w.use(f)
+			f.Delete(w.base() + "/.tmp")
+			before := f.SnapshotAll()
+			m0 := f.Mutations
+			var d2 *Dir
+			w.guard("open-store", func() { d2, _ = NewDirFromConfig("/etc/whawty/store0.yaml") })
+			if d2 != nil {
+				w.guard("read-only-after-open", func() {
+					d2.Check()        //nolint
+					d2.List()         //nolint
+					d2.ListFull()     //nolint
+					d2.Exists("root") //nolint
+					d2.Authenticate("root", "x") //nolint
+				})
+			}
+			if f.Mutations != m0 || len(simfs.DiffSnap(before, f.SnapshotAll())) > 0 {
+				r.Fail("read-only/open-store/mutated", "opening the store and running check / list / list-full / exists / authenticate changed the file system: %v %v", mutOps(f), simfs.DiffSnap(before, f.SnapshotAll()))
+			}
+			evals++
+		}
 		rofaults := 0
 		for _, ro := range []string{"authenticate", "authenticate-wrong", "exists", "list", "list-full", "check"} {
 			for pass := 0; pass < 2; pass++ {
